@@ -51,7 +51,7 @@ func init() {
 			return 20000 + nSim(t)
 		},
 		Batches: func(t string) int { return 16 },
-		Rule:    "phase A (most cases): one consistent random voting history of a term: 1-30 P-Reps (statuses, pubkey flags, commission rates 0-100% biased to 0/100%), 1-40 voters with initial delegations and bonds (P-Rep totals = sums over voters), 0-60 vote events (bond/delegation deltas, never taking a voter's vote below zero), enable/jail events, votes to unknown P-Reps; term period 1-50, elected count 0..n+2, bond requirement 0-100%, funds 1..1e27; driven through calculator.NewPRepInfo/Add/Sort/InitAccumulated/SetStatus/ApplyVote/UpdateTotalAccumulatedPower/CalculateReward and NewVoter/ApplyVoting/ApplyEvent/CalculateReward exactly as iiss4Reward does; oracle = big-int recomputation of the period budgets and of floor(accVotes(v,P)*voterReward(P)/sum_u accVotes(u,P)). Non-trivial = distinct history with >= 1 rewarded P-Rep that has >= 2 voters and >= 1 event. Phase B (first 16 cases; thorough 96): simulator history of 7-9 terms with staking operations, commission rates, wage fund and minimum bond set; at every term start the I-Score newly credited to all accounts (claims added back) must be <= Iprep+Iwage period budget of the rewarded term.",
+		Rule:    "phase A (most cases): one consistent random voting history of a term: 1-30 P-Reps (statuses, pubkey flags, commission rates 0-100% biased to 0/100%), 1-40 voters with initial delegations and bonds (P-Rep totals = sums over voters), 0-60 vote events (bond/delegation deltas, never taking a voter's vote below zero), enable/jail events, votes to unknown P-Reps; term period 1-50, elected count 0..n+2, bond requirement 0-100%, funds 1..1e27; driven through calculator.NewPRepInfo/Add/Sort/InitAccumulated/SetStatus/ApplyVote/UpdateTotalAccumulatedPower/CalculateReward and NewVoter/ApplyVoting/ApplyEvent/CalculateReward exactly as iiss4Reward does; oracle = big-int recomputation of the period budgets and of floor(accVotes(v,P)*voterReward(P)/sum_u accVotes(u,P)). Non-trivial = distinct history with >= 1 rewarded P-Rep that has >= 2 voters and >= 1 event. Phase B (first 16 cases; thorough 96): simulator history of 7-9 terms with staking operations, commission rates, wage fund and minimum bond set; voters with an existing delegation re-delegate changed non-zero amounts to the same P-Rep (two scripted accounts every term: one raises, one lowers; random users now and then); at every term start the I-Score newly credited to all accounts (claims added back) must be <= Iprep+Iwage period budget of the rewarded term, and every non-P-Rep account's credit must equal its vote-proportional share: accumulated votes per P-Rep are recomputed from the per-block delegation/bond history (base x termPeriod, change at offset o x (termPeriod-1-o)) and bracketed with the reward of an idle voter of the same P-Rep (same factor voterReward/accVoted).",
 		MinNonTrivial: func(t string) int {
 			if t == ev.Thorough {
 				return 100000
@@ -60,7 +60,8 @@ func init() {
 		},
 		Required: []string{"histories", "preps_rewarded", "voters_rewarded", "voter_shares_checked", "events_applied",
 			"budget_checks", "sim_term_credit_checks", "sim_credit_positive", "wage_paid", "commission_full", "commission_zero",
-			"elected_lt_preps", "status_not_enabled"},
+			"elected_lt_preps", "status_not_enabled", "redelegations_same_prep_changed_amount", "redelegations_same_prep_raised",
+			"terms_with_such_events_iiss4", "sim_voter_shares_checked"},
 		Assumptions: []string{
 			"math/big is the arithmetic reference",
 			"the harness replays the voting history to P-Rep side and voter side the way iiss4Reward.processEvents/processVoterReward do",
@@ -575,11 +576,16 @@ func phaseB(c *ev.Ctx, ci int, r *rand.Rand) {
 	nTerms := 7 + r.Intn(3)
 	var tail []map[string]interface{}
 	startSeq := prev.TermSeq
+	vt := newVoteTracker()
+	vt.notePReps(prev)
+	blockNo := 0
 	for !c.Stopped() {
 		var ops []*icon.Op
 		for i := r.Intn(4); i > 0; i-- {
 			ops = append(ops, w.GenOp(r, prev))
 		}
+		ops = append(ops, redelegations(w, r, prev, blockNo)...)
+		blockNo++
 		desc := make([]string, len(ops))
 		for i, op := range ops {
 			desc[i] = fmt.Sprintf("%s %s(%s)", op.From, op.Kind, op.Arg)
@@ -606,6 +612,7 @@ func phaseB(c *ev.Ctx, ci int, r *rand.Rand) {
 		}
 		note()
 		c.Count("sim_blocks", 1)
+		vt.block(c, w, prev, cur)
 		if cur.Height != cur.TermStart {
 			prev = cur
 			continue
@@ -614,6 +621,7 @@ func phaseB(c *ev.Ctx, ci int, r *rand.Rand) {
 		// block restarts from zero (the claim takes the whole I-Score at this revision)
 		credited := new(big.Int)
 		per := map[string]string{}
+		creditOf := map[string]*big.Int{}
 		for k, a := range cur.Accts {
 			before := prev.Accts[k].IScore
 			claimed := false
@@ -630,8 +638,10 @@ func phaseB(c *ev.Ctx, ci int, r *rand.Rand) {
 				per[w.Name(a.Addr)] = d.String()
 			}
 			credited.Add(credited, d)
+			creditOf[k] = d
 		}
 		_ = blk
+		vt.checkTerm(c, w, ci, p, cur, creditOf, tail)
 		if cur.Height == cur.TermStart {
 			c.Eval(1)
 			rewardedSeq := cur.TermSeq - 2
@@ -657,6 +667,271 @@ func phaseB(c *ev.Ctx, ci int, r *rand.Rand) {
 		prev = cur
 		if cur.TermSeq-startSeq >= nTerms {
 			break
+		}
+	}
+}
+
+// redelegations adds operations that CHANGE the amount of an existing delegation to the same
+// P-Rep to another non-zero amount (raise and lower): two scripted accounts do it in every term
+// (script2 raises, script3 lowers), and random driven users do it now and then.
+func redelegations(w *icon.World, r *rand.Rand, o *icon.Obs, blockNo int) []*icon.Op {
+	var ops []*icon.Op
+	up, down := w.Script[2], w.Script[3]
+	if blockNo == 0 {
+		a := o.Accts[string(up.Bytes())]
+		ops = append(ops, w.OpSetStake(up, new(big.Int).Add(a.Stake, new(big.Int).Mul(big.NewInt(3000), icon.ICX)), "script-stake-up"))
+	}
+	change := func(from module.Address, delta *big.Int, intent string) {
+		a := o.Accts[string(from.Bytes())]
+		if len(a.Delegations) == 0 {
+			return
+		}
+		j := r.Intn(len(a.Delegations))
+		var tl []module.Address
+		var am []*big.Int
+		for i, d := range a.Delegations {
+			v := new(big.Int).Set(d.Value)
+			if i == j {
+				v.Add(v, delta)
+				if v.Sign() <= 0 {
+					return
+				}
+			}
+			tl = append(tl, common.MustNewAddress([]byte(d.To)))
+			am = append(am, v)
+		}
+		ops = append(ops, w.OpSetDelegation(from, tl, am, intent))
+	}
+	off := o.Height + 1 - o.TermStart // offset of the block about to be executed in its term
+	spare := func(a *icon.Acct) *big.Int {
+		u := new(big.Int).Add(a.Delegated(), a.Bonded())
+		u.Add(u, a.Unbonding())
+		return u.Sub(a.Stake, u)
+	}
+	if blockNo > 0 && (off == 2 || off == 5) {
+		if a := o.Accts[string(up.Bytes())]; spare(a).Cmp(icon.ICX) > 0 {
+			d := new(big.Int).Rand(r, spare(a))
+			d.Div(d, big.NewInt(4)).Add(d, big.NewInt(1))
+			change(up, d, "script-raise-same-prep")
+		}
+		if a := o.Accts[string(down.Bytes())]; a.Delegated().Cmp(new(big.Int).Mul(big.NewInt(200), icon.ICX)) > 0 {
+			d := new(big.Int).Rand(r, new(big.Int).Mul(big.NewInt(60), icon.ICX))
+			change(down, d.Add(d, big.NewInt(1)).Neg(d), "script-lower-same-prep")
+		}
+	}
+	if r.Intn(3) == 0 {
+		u := w.Users[r.Intn(len(w.Users))]
+		a := o.Accts[string(u.Bytes())]
+		if sp := spare(a); sp.Sign() > 0 && r.Intn(2) == 0 {
+			d := new(big.Int).Rand(r, sp)
+			change(u, d.Add(d, big.NewInt(1)), "raise-same-prep")
+		} else if a.Delegated().Sign() > 0 {
+			d := new(big.Int).Rand(r, new(big.Int).Div(a.Delegated(), big.NewInt(int64(2*len(a.Delegations)+1))))
+			change(u, d.Add(d, big.NewInt(1)).Neg(d), "lower-same-prep")
+		}
+	}
+	return ops
+}
+
+// voteTracker recomputes, from the per-block observations of the accounts, the accumulated votes
+// of every account for every P-Rep in every term: votes held before the first block of the term
+// count termPeriod, a change in the block at offset o counts (termPeriod-1-o) - the weights of
+// iiss4Reward. It then checks the I-Score credited for the term against the idle stakers of the
+// simulated network (each delegates a constant amount to exactly one of the initial P-Reps):
+// a voter's reward from P is floor(acc(v,P)*x_P) with the same x_P = voterReward(P)/accVoted(P) for
+// every voter, so the idle voter's reward brackets x_P and therefore every other voter's reward.
+type voteTracker struct {
+	last     map[string]map[string]*big.Int         // account -> P -> delegation+bond after the previous block
+	acc      map[int]map[string]map[string]*big.Int // term seq -> account -> P -> accumulated votes
+	period   map[int]int64
+	redeleg  map[int]int // term seq -> number of changed-amount re-delegations to the same P-Rep
+	iiss4    map[int]bool
+	everPRep map[string]bool
+}
+
+func newVoteTracker() *voteTracker {
+	return &voteTracker{acc: map[int]map[string]map[string]*big.Int{}, period: map[int]int64{}, redeleg: map[int]int{},
+		iiss4: map[int]bool{}, everPRep: map[string]bool{}}
+}
+
+func (t *voteTracker) notePReps(o *icon.Obs) {
+	for k := range o.PReps {
+		t.everPRep[k] = true
+	}
+}
+
+func votesOf(a *icon.Acct) map[string]*big.Int {
+	m := map[string]*big.Int{}
+	for _, l := range [][]icon.Vote{a.Delegations, a.Bonds} {
+		for _, v := range l {
+			if m[v.To] == nil {
+				m[v.To] = new(big.Int)
+			}
+			m[v.To].Add(m[v.To], v.Value)
+		}
+	}
+	return m
+}
+
+// block accounts the block that led from prev to cur; the block belongs to the term shown by prev.
+func (t *voteTracker) block(c *ev.Ctx, w *icon.World, prev, cur *icon.Obs) {
+	t.notePReps(cur)
+	seq, start, period := prev.TermSeq, prev.TermStart, prev.TermEnd-prev.TermStart+1
+	off := cur.Height - start
+	if t.last == nil {
+		t.last = map[string]map[string]*big.Int{}
+		for k, a := range prev.Accts {
+			t.last[k] = votesOf(a)
+		}
+	}
+	if off == 0 {
+		// first block of a term: what is held now is the base of the term
+		t.acc[seq] = map[string]map[string]*big.Int{}
+		t.period[seq] = period
+		t.iiss4[seq] = w.Sim.TermSnapshot().GetIISSVersion() == icstate.IISSVersion4
+		for k, m := range t.last {
+			am := map[string]*big.Int{}
+			for p, v := range m {
+				am[p] = new(big.Int).Mul(v, big.NewInt(period))
+			}
+			t.acc[seq][k] = am
+		}
+	}
+	for k, a := range cur.Accts {
+		now := votesOf(a)
+		before := t.last[k]
+		if am := t.acc[seq]; am != nil {
+			if am[k] == nil {
+				am[k] = map[string]*big.Int{}
+			}
+			weight := big.NewInt(period - 1 - off)
+			seen := map[string]bool{}
+			for p, v := range now {
+				seen[p] = true
+				d := new(big.Int).Set(v)
+				if b := before[p]; b != nil {
+					d.Sub(d, b)
+				}
+				if d.Sign() != 0 {
+					if am[k][p] == nil {
+						am[k][p] = new(big.Int)
+					}
+					am[k][p].Add(am[k][p], d.Mul(d, weight))
+				}
+			}
+			for p, b := range before {
+				if !seen[p] && b.Sign() != 0 {
+					if am[k][p] == nil {
+						am[k][p] = new(big.Int)
+					}
+					am[k][p].Sub(am[k][p], new(big.Int).Mul(b, weight))
+				}
+			}
+		}
+		// a delegation to the same P-Rep whose amount changed from non-zero to another non-zero value
+		pd := map[string]*big.Int{}
+		for _, d := range prev.Accts[k].Delegations {
+			pd[d.To] = d.Value
+		}
+		for _, d := range a.Delegations {
+			if o := pd[d.To]; o != nil && o.Sign() > 0 && d.Value.Sign() > 0 && o.Cmp(d.Value) != 0 {
+				c.Count("redelegations_same_prep_changed_amount", 1)
+				if d.Value.Cmp(o) > 0 {
+					c.Count("redelegations_same_prep_raised", 1)
+				}
+				t.redeleg[seq]++
+			}
+		}
+		t.last[k] = now
+	}
+}
+
+// checkTerm runs in the first block of term N on the I-Score credited for term N-2.
+func (t *voteTracker) checkTerm(c *ev.Ctx, w *icon.World, ci int, p icon.Params, cur *icon.Obs, credit map[string]*big.Int, tail []map[string]interface{}) {
+	seq := cur.TermSeq - 2
+	acc := t.acc[seq]
+	if acc == nil {
+		c.Count("sim_voter_terms_unchecked", 1)
+		return
+	}
+	// reference voters: idle stakers with one constant delegation
+	type ref struct {
+		acc, reward *big.Int
+		name        string
+	}
+	refs := map[string]*ref{}
+	for _, u := range w.Idle {
+		k := string(u.Bytes())
+		if len(acc[k]) != 1 || t.everPRep[k] {
+			continue
+		}
+		for pk, a := range acc[k] {
+			if a.Sign() <= 0 {
+				continue
+			}
+			if r0 := refs[pk]; r0 == nil {
+				refs[pk] = &ref{a, credit[k], w.Name(u)}
+			} else if r0.acc.Cmp(a) == 0 && r0.reward.Cmp(credit[k]) != 0 {
+				c.Violation("sim.equal-votes-unequal-reward", map[string]interface{}{"case": ci, "params": p, "height": cur.Height,
+					"rewarded_term_seq": seq, "prep": fmt.Sprintf("%x", pk), "voter_a": r0.name, "reward_a": r0.reward.String(),
+					"voter_b": w.Name(u), "reward_b": credit[k].String(), "accumulated_votes": a.String()})
+			}
+		}
+	}
+	checked := 0
+	for k, am := range acc {
+		a := cur.Accts[k]
+		if a == nil || t.everPRep[k] {
+			continue
+		}
+		lo, hi := new(big.Int), new(big.Int)
+		n := 0
+		ok := true
+		detail := map[string]string{}
+		for pk, v := range am {
+			if v.Sign() == 0 || !t.everPRep[pk] {
+				continue // votes for an address that never was a P-Rep earn nothing
+			}
+			if v.Sign() < 0 {
+				c.Violation("sim.negative-accumulated-votes", map[string]interface{}{"case": ci, "account": w.Name(a.Addr), "prep": fmt.Sprintf("%x", pk), "acc": v.String()})
+				ok = false
+				break
+			}
+			rf := refs[pk]
+			if rf == nil {
+				ok = false
+				break
+			}
+			// floor(v*x) with rf.reward/rf.acc <= x < (rf.reward+1)/rf.acc
+			l := new(big.Int).Mul(v, rf.reward)
+			lo.Add(lo, l.Div(l, rf.acc))
+			h := new(big.Int).Mul(v, new(big.Int).Add(rf.reward, big.NewInt(1)))
+			h.Add(h, new(big.Int).Sub(rf.acc, big.NewInt(1)))
+			hi.Add(hi, h.Div(h, rf.acc))
+			n++
+			detail[fmt.Sprintf("%x", pk)] = fmt.Sprintf("acc_votes=%s reference=%s acc_votes=%s reward=%s", v, rf.name, rf.acc, rf.reward)
+		}
+		if !ok {
+			c.Count("sim_voters_skipped_no_reference", 1)
+			continue
+		}
+		lo.Sub(lo, big.NewInt(int64(n)))
+		got := credit[k]
+		checked++
+		c.Eval(1)
+		if got.Cmp(lo) < 0 || got.Cmp(hi) > 0 {
+			c.Violation("sim.voter-share-not-proportional", map[string]interface{}{"case": ci, "params": p, "height": cur.Height,
+				"rewarded_term_seq": seq, "term_period": t.period[seq], "voter": w.Name(a.Addr), "credited_iscore": got.String(),
+				"expected_min": lo.String(), "expected_max": hi.String(), "per_prep": detail,
+				"redelegations_same_prep_in_term": t.redeleg[seq], "history_tail": tail,
+				"expect": "reward from P = floor(accumulated votes for P * voterReward(P)/accVoted(P)); the idle reference voter of P brackets the factor"})
+		}
+	}
+	c.Count("sim_voter_shares_checked", checked)
+	if t.redeleg[seq] > 0 && checked > 0 {
+		c.Count("terms_with_redelegation_checked", 1)
+		if t.iiss4[seq] {
+			c.Count("terms_with_such_events_iiss4", 1)
 		}
 	}
 }
